@@ -564,3 +564,22 @@ Proof.
   - now rewrite (nth_map' (ent_mean dim p) _ [] []) by exact Hi.
   - now rewrite (nth_map' (ent_scaled sc dim p) _ [] []) by exact Hi.
 Qed.
+
+(* distinct (child number, cell) pairs have distinct positions: a tag cannot bleed into another cell's children *)
+Theorem fallback_index_injective nt j k j' k' :
+  k < nt -> k' < nt -> fallback_index nt j k = fallback_index nt j' k' -> j = j' /\ k = k'.
+Proof.
+  unfold fallback_index. intros Hk Hk' H.
+  assert (Hj : j = j').
+  { destruct (Nat.lt_trichotomy j j') as [Hlt|[Heq|Hgt]]; [|exact Heq|]; exfalso; nia. }
+  subst j'. split; [reflexivity | lia].
+Qed.
+
+Theorem interleaved_index_injective N j k j' k' :
+  j < N -> j' < N -> interleaved_index N j k = interleaved_index N j' k' -> j = j' /\ k = k'.
+Proof.
+  unfold interleaved_index. intros Hj Hj' H.
+  assert (Hk : k = k').
+  { destruct (Nat.lt_trichotomy k k') as [Hlt|[Heq|Hgt]]; [|exact Heq|]; exfalso; nia. }
+  subst k'. split; [lia | reflexivity].
+Qed.
